@@ -93,12 +93,29 @@ def build_traces(path, tier, seed):
         if i % 4 == 3:
             periods = [0.0] + periods
         xi = [0.05, 0.0, 0.3, 0.7][i % 4]
-        o = eqsig.AccSignal(a, dt, response_times=np.array(periods))
-        if i % 2:
-            o.gen_response_spectrum(xi=xi, min_dt_ratio=q)
+        hist = i % 3
+        if hist == 0:
+            o = eqsig.AccSignal(a, dt, response_times=np.array(periods))
+            if i % 2:
+                o.gen_response_spectrum(xi=xi, min_dt_ratio=q)
+            else:
+                o.generate_response_spectrum(response_times=[np.array(periods), list(periods)][i % 2], xi=xi, min_dt_ratio=q)
         else:
-            o.generate_response_spectrum(response_times=[np.array(periods), list(periods)][i % 2], xi=xi, min_dt_ratio=q)
-        order = [("s_d", "s_v", "s_a"), ("s_a", "s_d", "s_v")][i % 2]
+            # history: the object reported spectra for OTHER periods / another record before; then it is changed and the
+            # spectra are read lazily (default damping 0.05 and min_dt_ratio 4 apply), s_v or s_d first
+            xi, q = 0.05, 4
+            if hist == 1:
+                o = eqsig.AccSignal(a, dt, response_times=np.array([p * 1.37 for p in periods if p > 0] + [periods[-1] * 3.0]))
+                _ = (o.s_a, o.s_v, o.s_d)
+                if i % 2:
+                    o.response_times = np.array(periods)
+                else:
+                    o.response_series(response_times=np.array(periods))
+            else:
+                o = eqsig.AccSignal(a[::-1] * 0.7 + 0.1, dt, response_times=np.array(periods))
+                _ = (o.s_d, o.s_v)
+                o.reset_values(a.copy()) if i % 2 else o.add_series(a - o.values)
+        order = [("s_d", "s_v", "s_a"), ("s_a", "s_d", "s_v"), ("s_v", "s_a", "s_d")][i % 3]
         got = {nm: np.array(getattr(o, nm)) for nm in order}
         add({"kind": "object", "dt": enc(dt), "xi": enc(xi), "a": enc_seq(a), "periods": enc_seq(periods), "raised": False, "q": q,
              "sd": enc_seq(got["s_d"]), "sv": enc_seq(got["s_v"]), "sa": enc_seq(got["s_a"])},
